@@ -54,6 +54,25 @@ pub fn cmd_cbor(args: &[&str]) -> String {
                 Err(_) => "B ERR".to_string(),
             }
         }
+        // parse a unit word, write it, read it back; print both the way the tool displays them
+        "unitword" => {
+            let text = String::from_utf8(hex_decode(args[1])).unwrap();
+            let c: Compound = match text.parse() {
+                Ok(c) => c,
+                Err(_) => return "B NOPARSE".to_string(),
+            };
+            let bytes = serde_cbor::to_vec(&c).unwrap();
+            let back: Result<Compound, _> = serde_cbor::from_slice(&bytes);
+            match back {
+                Ok(b) => format!(
+                    "B OK {} {} {}",
+                    hex_encode(c.display(false).to_string().as_bytes()),
+                    hex_encode(b.display(false).to_string().as_bytes()),
+                    hex_encode(&bytes)
+                ),
+                Err(_) => format!("B RTFAIL {}", hex_encode(&bytes)),
+            }
+        }
         "dejsonrat" => {
             let bytes = hex_decode(args[1]);
             let back: Result<Rational, _> = serde_json::from_slice(&bytes);
